@@ -38,6 +38,14 @@ from autobahn.wamp.exception import TransportLost                        # noqa:
 REASONS = {"normal": "wamp.close.normal", "lost": "wamp.close.transport_lost",
            "noauth": "wamp.error.cannot_authenticate"}
 REASONS_INV = {v: k for k, v in REASONS.items()}
+# free text the router may put into GOODBYE / ABORT details["message"] (optional third element of the op: an index).
+# The session must treat it as data: none of the checked behaviour depends on it (the model has no such field).
+MESSAGES = [None, "going down for maintenance", 'bad request {"x": 1}', "{", "}", "{0} {reason} {message!r} {nope}",
+            "100% %s %(x)d", "{log_time} {log_level}", "\u00e4\u20ac {} {{}}"]
+
+
+def close_details(o):
+    return {} if len(o) < 3 or o[2] is None else {"message": MESSAGES[o[2] % len(MESSAGES)]}
 MATCH = {0: "exact", 1: "prefix", 2: "wildcard"}
 INVOKE = {0: "single", 1: "first", 2: "last", 3: "roundrobin", 4: "random"}
 
@@ -272,6 +280,59 @@ class _LazyLog:
         self.target.append(x)
 
 
+BY_CFG = {"connect": "join", "welcome": "none", "challenge": "raise", "join_raises": False, "leave_super": True,
+          "leave_raises": False, "disc_super": True, "disc_raises": False, "lenient": False}
+
+
+class Bystander:
+    """a SECOND session object in the same process (cfg["bystander"]: 1 = joined, 2 = connected, onConnect does not
+    join): it has one pending request of four kinds before the history under test starts and gets no event during it.
+    Afterwards nothing about it may have changed (session objects share no state): check() lists what did."""
+    def __init__(self, mode):
+        from autobahn.wamp.types import PublishOptions
+        self.b = env.session(mixin=make_mixin(dict(BY_CFG, connect="join" if mode == 1 else "raise"), []), auto_turn=False)
+        s = self.b.s
+        s.onOpen(self.b.t)
+        self.settle()
+        if mode == 1:
+            s.onMessage(wampdrv.parse([2, 777, {"roles": {"broker": {"features": {}}, "dealer": {"features": {}}}}]))
+            self.settle()
+        self.sid = s._session_id
+        self.futs = [s.call("com.by.proc", 1), s.subscribe(lambda *a, **k: None, "com.by.topic"),
+                     s.publish("com.by.topic", 1, options=PublishOptions(acknowledge=True)),
+                     s.register(lambda *a, **k: None, "com.by.proc2")]
+        self.settle()
+        self.nlog = len(self.b.log)
+
+    @staticmethod
+    def settle():
+        for _ in range(3):
+            env.turn()
+
+    def check(self):
+        s, out = self.b.s, []
+        done = [i for i, f in enumerate(self.futs) if (txaio.is_called(f) if FW == "tx" else f.done())]
+        if done:
+            out.append(["future-completed", f"pending futures {done} of the other session object have a result"])
+        sizes = [len(s._call_reqs), len(s._subscribe_reqs), len(s._publish_reqs), len(s._register_reqs),
+                 len(s._unsubscribe_reqs), len(s._unregister_reqs)]
+        if sizes != [1, 1, 1, 1, 0, 0]:
+            out.append(["tables", f"request tables of the other session object: {sizes} (call, subscribe, publish, register, "
+                                  f"unsubscribe, unregister), expected [1, 1, 1, 1, 0, 0]"])
+        if len(self.b.log) != self.nlog:
+            out.append(["events", f"the other session object saw {self.b.log[self.nlog:][:4]}"])
+        if s._transport is not self.b.t or s._session_id != self.sid:
+            out.append(["state", f"transport / session id of the other session object changed ({s._session_id})"])
+        try:
+            s.call("com.by.proc", 2)
+            last = self.b.log[-1]
+            if last[0] != "send" or last[1][0] != 48 or last[1][1] != 5:
+                out.append(["request-id", f"the fifth request of the other session object went out as {last}"])
+        except BaseException as e:       # noqa
+            out.append(["request-id", f"the other session object cannot call any more: {exn_name(e)}"])
+        return out or None
+
+
 class Runner:
     def __init__(self, cfg):
         self.cfg = cfg
@@ -288,6 +349,7 @@ class Runner:
             env.loop.call_exception_handler = self._loop_exc
             del env.loop.exceptions[:]
             del env.loop._ready[:]   # nothing may leak from the previous case
+        self.by = Bystander(cfg["bystander"]) if cfg.get("bystander") else None
 
     def _loop_exc(self, ctx):
         e = ctx.get("exception")
@@ -472,11 +534,11 @@ class Runner:
             self.recv([2, o[1], {"roles": {"broker": {"features": {}}, "dealer": {"features": {
                 "progressive_call_results": True, "call_canceling": True}}}}])
         elif name == "abort":
-            self.recv([3, {}, reason(o[1])])
+            self.recv([3, close_details(o), reason(o[1])])
         elif name == "challenge":
             self.recv([4, "ticket", {}])
         elif name == "goodbye":
-            self.recv([6, {}, reason(o[1])])
+            self.recv([6, close_details(o), reason(o[1])])
         elif name == "published":
             self.recv([17, o[1], o[2]])
         elif name == "subscribed":
@@ -546,7 +608,7 @@ class Runner:
         tables = {"publish": len(s._publish_reqs), "subscribe": len(s._subscribe_reqs),
                   "unsubscribe": len(s._unsubscribe_reqs), "call": len(s._call_reqs),
                   "register": len(s._register_reqs), "unregister": len(s._unregister_reqs)}
-        return {"trace": trace, "futures": futs, "tables": tables,
+        return {"trace": trace, "futures": futs, "tables": tables, "bystander": self.by.check() if self.by else None,
                 "session_id": s._session_id, "transport": s._transport is not None,
                 "goodbye_sent": bool(s._goodbye_sent), "next_id": s._request_id_gen._next}
 
